@@ -530,9 +530,9 @@ type RandRec struct {
 // restrictTerm resolves top-level ite chains whose conditions are decided (syntactically) by guard g.
 func restrictTerm(t *Term, g *Term) *Term {
 	for t.op == OpIte {
-		if And(g, Not(t.args[0])).IsFalse() {
+		if x := And(g, Not(t.args[0])); x.IsFalse() || semFalse(x) {
 			t = t.args[1]
-		} else if And(g, t.args[0]).IsFalse() {
+		} else if y := And(g, t.args[0]); y.IsFalse() || semFalse(y) {
 			t = t.args[2]
 		} else {
 			break
